@@ -189,7 +189,11 @@ pub fn expand_templates(
             })
         })
         .collect();
-    expand(&mut toplevels, &templates, lsp_hints)?;
+    let mut limits = ExpansionLimits {
+        depth: 0,
+        nodes_left: MAX_EXPANDED_NODES,
+    };
+    expand(&mut toplevels, &templates, lsp_hints, &mut limits)?;
 
     toplevels.into_iter().try_fold(vec![], |mut tls, tl| {
         tls.push(match &tl {
@@ -211,8 +215,37 @@ struct Replacement {
     insert_index: usize,
 }
 
-fn expand(exprs: &mut Vec<SExpr>, templates: &[Template], _lsp_hints: &mut LspHints) -> Result<()> {
+/// An expansion can produce another `template-expand` (for example when `t!` is passed as a
+/// template parameter), so expansion is not guaranteed to finish by itself.
+/// These limits turn a runaway expansion into an error.
+const MAX_EXPANSION_DEPTH: usize = 256;
+const MAX_EXPANDED_NODES: usize = 1_000_000;
+
+struct ExpansionLimits {
+    /// How many expansions deep the currently visited expressions are.
+    depth: usize,
+    /// How many more expressions the expansions are allowed to produce in total.
+    nodes_left: usize,
+}
+
+fn count_nodes(exprs: &[SExpr]) -> usize {
+    exprs
+        .iter()
+        .map(|expr| match expr {
+            SExpr::Atom(_) => 1,
+            SExpr::List(l) => 1 + count_nodes(&l.t),
+        })
+        .sum()
+}
+
+fn expand(
+    exprs: &mut Vec<SExpr>,
+    templates: &[Template],
+    _lsp_hints: &mut LspHints,
+    limits: &mut ExpansionLimits,
+) -> Result<()> {
     let mut replacements: Vec<Replacement> = vec![];
+    let depth_on_entry = limits.depth;
     loop {
         for (expr_index, expr) in exprs.iter_mut().enumerate() {
             match expr {
@@ -222,8 +255,15 @@ fn expand(exprs: &mut Vec<SExpr>, templates: &[Template], _lsp_hints: &mut LspHi
                         l.t.first().and_then(|expr| expr.atom(None)),
                         Some("template-expand") | Some("t!")
                     ) {
-                        expand(&mut l.t, templates, _lsp_hints)?;
+                        expand(&mut l.t, templates, _lsp_hints, limits)?;
                         continue;
+                    }
+                    if limits.depth >= MAX_EXPANSION_DEPTH {
+                        bail_span!(
+                            l,
+                            "template-expand is nested more than {MAX_EXPANSION_DEPTH} expansions deep.\n\
+                             Check for a template that expands to itself."
+                        );
                     }
 
                     // found expand, now parse
@@ -297,6 +337,16 @@ fn expand(exprs: &mut Vec<SExpr>, templates: &[Template], _lsp_hints: &mut LspHi
 
                     while evaluate_conditionals(&mut expanded_template)? {}
 
+                    let produced = count_nodes(&expanded_template).max(1);
+                    if produced > limits.nodes_left {
+                        bail_span!(
+                            l,
+                            "template expansion produces more than {MAX_EXPANDED_NODES} items.\n\
+                             Check for a template that expands to itself."
+                        );
+                    }
+                    limits.nodes_left -= produced;
+
                     replacements.push(Replacement {
                         insert_index: expr_index,
                         exprs: expanded_template,
@@ -325,7 +375,10 @@ fn expand(exprs: &mut Vec<SExpr>, templates: &[Template], _lsp_hints: &mut LspHi
             break;
         }
         replacements.clear();
+        // Whatever the next pass finds was produced by the expansions of this pass.
+        limits.depth += 1;
     }
+    limits.depth = depth_on_entry;
 
     Ok(())
 }
